@@ -192,3 +192,18 @@ pub fn c13() -> DiffProp {
         assumptions: vec!["from_ascii of 128..191 is not defined by any test and is excluded", "every string yarel prints reaches the harness as a Rust String, i.e. valid UTF-8, or the run panics"],
     }
 }
+
+fn nt_c14(_l: &[&'static str], e: &Ev, _d: &DiffResult) -> bool {
+    ev(e, "import_again") > 0 && ev(e, "import") >= 3
+}
+
+pub fn c14() -> DiffProp {
+    DiffProp {
+        id: "C14",
+        families: vec![Fam::custom("import_graphs", Box::new(crate::gen_mod::program), 12_000, 250_000, 260)],
+        rule: "cases: import graphs over 1-6 generated modules (some missing, some that do not compile) with forward, backward and self edges (DAGs, diamonds, self-loops, longer cycles); imports at top level, inside functions called once or twice, inside try blocks and under aliases; every module prints load tags, defines the globals `tag` and `counter` (as main does) and functions that read and write them, reads built-ins (type, Error, StopIter, iterators) and tries to read a global that only main defines; main reads and sets module attributes, calls module functions, prints its own globals after every import and compares module objects. Served by an in-memory loader. Oracle: reference interpreter (module registry: absent / loading / loaded, one module object per path, globals per module) vs yarel; import failures compared by class. Non-trivial: a module was imported again after it had been loaded and >=3 imports ran; distinct by program text.",
+        nontrivial: nt_c14,
+        floors: vec![("ev:import_again", 3_000), ("ev:import_cycle", 1_000), ("gen:import_in_function", 3_000), ("gen:bad_module", 1_000), ("gen:module_identity", 300), ("gen:set_attribute", 1_000)],
+        assumptions: vec!["every import statement in a generated module body is guarded, so a module body never ends in an exception (re-importing a module whose body threw is not defined by the statement)"],
+    }
+}
